@@ -1,5 +1,7 @@
 package main
 
+import "fmt"
+
 // C01 / C10 additions to the ledger generator: the structure the proofs found load-bearing.
 //
 //   * the follower's reorg() connects SEVERAL blocks in one database transaction only when a notification
@@ -185,4 +187,24 @@ func (l *ledGen) disturb() {
 	default:
 		l.reannounce()
 	}
+}
+
+// cbDeposit: now and then a coinbase pays a staking or (old-style) binding output to a wallet. Consensus does
+// not constrain the miner's own outputs; such an output needs BOTH the coinbase maturity and the lock of its
+// script (two defects lived here: the credit took the coinbase maturity only, and Rollback kept its deposit
+// record). Frozen periods satisfy frozen+1 >= CoinbaseMaturity as on the main network (61440 vs 1000).
+func (l *ledGen) cbDeposit() string {
+	if l.g.Prop == "C09" || l.r.Intn(10) != 0 {
+		return ""
+	}
+	w := l.wallets[l.r.Intn(len(l.wallets))]
+	l.g.Stats["blk-cb-deposit"]++
+	if l.r.Intn(3) == 0 {
+		return fmt.Sprintf("%s:%d:bind:%d", l.someAddr(w), 50+l.r.Int63n(100), l.r.Intn(5))
+	}
+	fr := l.minFr + l.r.Intn(3)
+	if fr+1 < l.cbm {
+		fr = l.cbm - 1
+	}
+	return fmt.Sprintf("%s:%d:stk:%d", l.someAddr(w), 50+l.r.Int63n(100), fr)
 }
